@@ -127,8 +127,10 @@ Result ==
               /\ dev = "idle" /\ Len(done) >= 1 /\ done[Len(done)] = call.tag        \* NoFalseSuccess: the device completed this very command,
               /\ (call.shape = "in"  => E.dataExact /\ E.dataLen = call.len)         \*   data read are exact and complete,
               /\ (call.shape = "out" => E.devGotExact /\ E.devBytes = call.len)      \*   data written reached the device once, in order,
+              /\ (call.shape = "outin" => /\ E.devGotExact /\ E.devBytes = call.len  \*   both for an operation of two exchanges (key out, blob in)
+                                          /\ E.dataExact /\ E.dataLen = call.len2 /\ Len(done) >= 2 /\ done[Len(done) - 1] = call.tag)
               /\ (call.shape = "value" => E.valuesExact))                            \*   values are the device's
-  /\ (E.kind = "ret" /\ call.shape = "in" /\ E.val = "data" /\ ~(E.dataExact /\ E.dataLen = call.len) => E.status # 0)   \* partial data only with a failure status
+  /\ (E.kind = "ret" /\ call.shape \in {"in", "outin"} /\ E.val = "data" /\ ~(E.dataExact /\ E.dataLen = (IF call.shape = "outin" THEN call.len2 ELSE call.len)) => E.status # 0)   \* partial data only with a failure status
   /\ (call.op = "load_image" /\ E.kind = "ret" /\ E.val = "ok" => E.devGotExact /\ E.devBytes = call.len)
   /\ (strict => ~Succ)                                                              \* StrictFaults: NAK / abort / truncated / missing frame end the call in failure
   /\ LET exp == IF call.via = "cli" THEN CliCmds(call.cli) ELSE Cmds(call.op, call.args, call.dl, call.db) IN   \* a blhost command line means its operation (MbootCli)                        \* AsRequested: the device saw exactly the commands the operation stands for,
